@@ -72,15 +72,15 @@ def specs(draw, tier):
         cpos[a] = gen.r6(cpos[a] + draw(st.floats(-2, 2, **finite)) * dmax)
     cand = {"cls": cls, "position": cpos, "radius": gen.r6(R * draw(st.floats(0.7, 1.3, **finite)))}
     if cls != "SphericalDroplet":
-        cand["interface_width"] = draw(st.sampled_from([None, gen.r6(w), gen.r6(0.5 * w), gen.r6(2 * w)]))
+        cand["interface_width"] = draw(st.sampled_from([None, 0.0, gen.r6(w), gen.r6(0.5 * w), gen.r6(2 * w)]))
     if cls.startswith("Perturbed"):
         nmodes = draw(st.integers(1, 6)) if cls != "PerturbedDroplet3DAxisSym" else draw(st.integers(1, 3))
         cand["amplitudes"] = [gen.r6(draw(st.floats(-0.1, 0.1, **finite))) if draw(st.booleans()) else 0.0 for _ in range(nmodes)]
     if kind == "self":
         cand["position"] = list(spec["truth"]["position"])
         cand["radius"] = spec["truth"]["radius"]
-        if cls != "SphericalDroplet":
-            cand["interface_width"] = spec["truth"]["interface_width"]
+        if cls != "SphericalDroplet":  # the candidate's own render: diffuse, or (one case in four) sharp
+            cand["interface_width"] = 0.0 if draw(st.integers(0, 3)) == 0 else spec["truth"]["interface_width"]
     spec["candidate"] = cand
     spec["opts"] = {"levels": draw(st.sampled_from(["fixed", "fixed", "auto", "adjust", "auto+adjust"])), "tolerance": draw(st.sampled_from([None, None, 1e-4, 1e-10]))}
     return spec
@@ -138,7 +138,7 @@ class C04(Property):
         "Hypothesis draws a grid of any family (Cartesian 1-3 D with any periodicity and mild anisotropy, polar, spherical, "
         "cylindrical with both periodic_z), a 'truth' droplet, an image (clean render, render + Gaussian noise, affine-rescaled "
         "render, pure noise, smooth random field, or the render of the candidate itself), a candidate of any compatible class "
-        "(Spherical, Diffuse with width None/given, Perturbed2D/3D/axisymmetric with 1-6 modes) displaced by up to 2 cells and +-30 % "
+        "(Spherical, Diffuse with width None/0/positive, Perturbed2D/3D/axisymmetric with 1-6 modes) displaced by up to 2 cells and +-30 % "
         "in radius, and the intensity option (fixed, automatic, fitted, automatic+fitted) with optional tolerance. refine_droplet is "
         "called directly with scipy.optimize replaced (harness side) by a recording proxy. Oracle: final cost <= initial cost and "
         "solution within bounds (proxy), independently recomputed squared deviation over the dilated fit region (fixed levels), "
@@ -149,8 +149,9 @@ class C04(Property):
     assumptions = [
         "scipy.optimize.least_squares is trusted; the proxy only observes its arguments and result",
         "fit regions that are empty make the case trivial (the candidate is returned)",
-        "the fixed-point clause is judged for candidates that carry an explicit positive interface width (for Spherical / width-None candidates the fitted model differs from the rendered one); the independent deviation is not recomputed on periodic cylindrical grids (py-pde 0.58 does not wrap z when rendering, so a result wrapped into the box renders differently)",
-        "fixed-point tolerance 1e-6 relative (solver tolerance); cost comparison slack 1e-12 relative",
+        "the fixed-point clause is judged for candidates that carry an explicit interface width, including the sharp width 0 (for Spherical / width-None candidates the fitted model differs from the rendered one); the independent deviation is not recomputed on periodic cylindrical grids (py-pde 0.58 does not wrap z when rendering, so a result wrapped into the box renders differently)",
+        "fixed-point tolerance 1e-6 relative (solver tolerance); cost comparison slack 1e-12 relative + 1e-18 x N x range^2 absolute",
+        "sharp candidates (width 0) with a cell centre within 1e-6 R of the interface are knife-edge cases: cost comparison, independent deviation and fixed point are not judged there (counted as class sharp-knife-edge)",
     ]
 
     def budget(self, tier):
@@ -200,6 +201,16 @@ class C04(Property):
             kw["tolerance"] = spec["opts"]["tolerance"]
         cand0 = cand.copy()
         ctx.cls(fam, spec["candidate"]["cls"], f"image:{kind}", f"levels:{mode}")
+        # knife-edge rule for sharp candidates: the solver moves a start value that sits on a bound strictly inside (1e-10
+        # relative) and probes with steps of 1e-8; if a cell centre lies within 1e-6 R of the sharp interface the indicator of
+        # that cell is not stable under such moves and neither the cost comparison nor the fixed point can be judged
+        sharp_knife_edge = False
+        if isinstance(cand0, DiffuseDroplet) and cand0.interface_width == 0:
+            lo_c, hi_c = cand0.copy(), cand0.copy()
+            lo_c.radius, hi_c.radius = cand0.radius * (1 - 1e-6), cand0.radius * (1 + 1e-6)
+            sharp_knife_edge = not np.array_equal(np.asarray(lo_c._get_phase_field(grid, dtype=bool)), np.asarray(hi_c._get_phase_field(grid, dtype=bool)))
+            if sharp_knife_edge:
+                ctx.cls("sharp-knife-edge")
         proxy = _Proxy(optimize)
         ia.optimize = proxy
         try:
@@ -237,13 +248,16 @@ class C04(Property):
         if rec["nres"] == 0:
             ctx.cls("empty-fit-region")
         ctx.nontrivial = r.nfev > 1 or kind == "self"
-        ctx.require(r.cost <= rec["cost0"] * (1 + 1e-12) + 1e-300, "cost-increased", f"final cost {r.cost} > initial cost {rec['cost0']}")
+        # absolute slack: a candidate on a bound (sharp interface, width 0) is moved strictly inside by the solver (1e-10 relative)
+        slack = 1e-18 * rec["nres"] * (np.ptp(data) if np.ptp(data) > 0 else 1.0) ** 2
+        if not sharp_knife_edge:
+            ctx.require(r.cost <= rec["cost0"] * (1 + 1e-12) + slack, "cost-increased", f"final cost {r.cost} > initial cost {rec['cost0']}")
         if rec["bounds"] is not None:
             lb, ub = rec["bounds"]
             ctx.require(bool(np.all(r.x >= np.asarray(lb) - 1e-300) and np.all(r.x <= np.asarray(ub) + 1e-300)), "solution-out-of-bounds", f"solution {r.x} outside [{lb}, {ub}]")
         # --- independent deviation over the fit region (fixed levels only) -------------------------
         periodic_cyl = fam == "cyl" and spec["grid"]["periodic_z"]  # py-pde does not wrap z when rendering: a wrapped result renders differently
-        if mode == "fixed" and rec["nres"] > 0 and not periodic_cyl:
+        if mode == "fixed" and rec["nres"] > 0 and not periodic_cyl and not sharp_knife_edge:
             c_diff = cand0 if isinstance(cand0, DiffuseDroplet) else DiffuseDroplet.from_droplet(cand0)
             if c_diff.interface_width is None:
                 c_diff = c_diff.copy()
@@ -257,18 +271,19 @@ class C04(Property):
             ctx.require(d_r <= d_c * (1 + 1e-9) + 1e-18 * region.sum() * (vmax - vmin) ** 2, f"deviation-increased:{fam}", f"squared deviation over the fit region: candidate {d_c}, result {d_r}")
             ctx.require(abs(0.5 * d_c - rec["cost0"]) <= 1e-9 * max(d_c, 1e-300) + 1e-300, "fit-region-or-model-differs", f"independently computed initial deviation {0.5 * d_c} vs the optimiser's initial cost {rec['cost0']}")
         # --- fixed point ------------------------------------------------------------------------
-        explicit_width = isinstance(cand0, DiffuseDroplet) and cand0.interface_width is not None and cand0.interface_width > 0
-        if kind == "self" and mode == "fixed" and explicit_width:
-            ctx.cls("fixed-point")
-            ref = cand0 if isinstance(cand0, DiffuseDroplet) else DiffuseDroplet.from_droplet(cand0)
-            w_ref = ref.interface_width if ref.interface_width is not None else float(grid.typical_discretization)
+        explicit_width = isinstance(cand0, DiffuseDroplet) and cand0.interface_width is not None and cand0.interface_width >= 0
+        if kind == "self" and mode == "fixed" and explicit_width and not sharp_knife_edge:
+            ctx.cls("fixed-point" + (":sharp" if cand0.interface_width == 0 else ""))
+            ref = cand0
+            # a sharp candidate (width 0) sits on the lower bound of the width: the deviation is measured relative to a cell
+            w_ref = ref.interface_width if ref.interface_width > 0 else float(np.max(grid.discretization))
             if fam == "cart":
                 dpos = np.abs(geom.min_image(np.asarray(res.position, float) - np.asarray(ref.position, float)))
                 dmax = float(geom.dx.max())
             else:
                 dpos = np.abs(np.asarray(res.position, float) - np.asarray(ref.position, float))
                 dmax = float(np.max(grid.discretization))
-            err = max(float(dpos.max()) / dmax, abs(res.radius - ref.radius) / ref.radius, abs(res.interface_width - w_ref) / w_ref)
+            err = max(float(dpos.max()) / dmax, abs(res.radius - ref.radius) / ref.radius, abs(res.interface_width - ref.interface_width) / w_ref)
             if hasattr(res, "amplitudes"):
                 err = max(err, float(np.abs(res.amplitudes - ref.amplitudes).max()))
             ctx.require(err <= 1e-6, f"fixed-point-moved:{fam}", f"image rendered from the candidate itself, yet the result differs by {err} (relative)")
